@@ -10,6 +10,7 @@ CONSTANTS
   MaxOps = 100000000
   MaxHeads = 100000000
   KeepHist = FALSE
+  InactiveRefusedAtOnce = TRUE
 INVARIANTS Conform ImplIndexesAgree ImplSizeLimit ImplFeeIsInputsMinusOutputs ImplPoolTxsOnceValid ImplAssembledBlockNeverDoubleSpends
 POSTCONDITION TraceAccepted
 CHECK_DEADLOCK FALSE
